@@ -82,8 +82,7 @@ partial def diffS (a b : STree) (path : List Nat) : Option String :=
     if s != s' then some s!"sym {s}/{s'} at {path.reverse}"
     else if e != e' then some s!"extra {e}/{e'} at {path.reverse}"
     else if p != p' then some s!"production_id {p}/{p'} at {path.reverse}"
-    -- the root's own value is the judge's business (the runtime rebuilds the root at acceptance)
-    else if d != d' && !path.isEmpty then some s!"dynamic_precedence {d}/{d'} at {path.reverse}"
+    else if d != d' then some s!"dynamic_precedence {d}/{d'} at {path.reverse}"
     else if ks.length != ks'.length then some s!"child_count {ks.length}/{ks'.length} at {path.reverse}"
     else
       let rec go (i : Nat) : List STree → List STree → Option String
